@@ -1288,3 +1288,17 @@ mod tests {
         assert_eq!(result.unwrap().to.unwrap().address, *INVALID_ADDRESS);
     }
 }
+
+/// Verification hook: the real dispatch table over `engine`, without the HTTP transport, plus
+/// one extra method `verif_enginePtr` that hands the harness a pointer to the engine owned by
+/// the module (valid for as long as the returned `Methods` is alive).
+#[cfg(brc20_prog_verif)]
+pub fn verif_rpc_module(engine: BRC20ProgEngine) -> jsonrpsee::Methods {
+    let mut module = RpcServer { engine }.into_rpc();
+    module
+        .register_method("verif_enginePtr", |_, ctx, _| {
+            &ctx.engine as *const BRC20ProgEngine as usize as u64
+        })
+        .expect("verif method registration");
+    module.into()
+}
